@@ -12,7 +12,8 @@
      taken from the record, they are unconstrained).  Progress = number of events matched.
    * PInit / PNext / PAccept  - property level: only the clauses of the statement (WrittenOK, RoundTripOK,
      HeldOK, fixpoint), evaluated with the operators of PageXml on the recorded values.  Progress = number
-     of the first violated clause (see Clause below).  Only a rejection at this level is a VIOLATION. *)
+     of the first violated clause (see Clause below).  Only a rejection at this level is a VIOLATION.
+   Every record carries kind = "std" (the behaviour above) or "hist" (a history over long-lived objects, see HClause). *)
 EXTENDS PageXml, TraceKit
 VARIABLES tid, pclause
 Tr == Traces[tid]
@@ -37,6 +38,7 @@ TInit == /\ tid \in 1..NTraces
          /\ doc = NoDoc /\ prevDoc = NoDoc /\ seen = NoDoc /\ step = 0 /\ how = "none" /\ pclause = 0
 
 TNext == /\ UNCHANGED <<tid, pclause>>
+         /\ Tr.kind = "std"                                  \* histories (kind "hist") are judged at the property level only
          /\ Tr.outcome = "ok" /\ step < Len(Tr.events)
          /\ LET ev == Tr.events[step + 1]
             IN \/ /\ ev.a = "Export"
@@ -75,8 +77,46 @@ Clause ==
   ELSE IF ~(E(5).doc = E(3).doc /\ E(5).hash = E(3).hash) THEN 9            \* fixpoint
   ELSE 0
 
+\* ---------------------------------------------------------------- history (kind = "hist")
+(* The statement speaks about ANY page and ANY document, whatever the process loaded, edited or failed to load before.
+   A recorded history over long-lived objects of one process (driver: pagexml_common.run_hist):
+     events[1..8] = Export v P -> X1 / Load X1 -> L1 / Export v' L1 -> X2 /
+                    Edit (the caller moves its own page L1 IN PLACE: numpy +=, list item assignment; page = L1 afterwards) /
+                    Export v' L1 -> X3 / Load X3 -> L2 / Load X1 AGAIN -> L3 (for some histories right after a load that
+                    fails half way) / Export v' L3 -> X4
+   Clauses 1-5 are the ones of the plain behaviour; 10-14 are the same operators of PageXml applied across the history:
+   the edited page is what is written and read back (not a stale copy of L1), and the first document still loads to the
+   page it was written from (not to whatever L1 was turned into).  Nothing is asserted about the edit itself: the page
+   recorded after it is taken as the caller's page, whatever aliasing the library's objects may have. *)
+SeenOf(D, pm) == IF IsPermIdx(pm, Len(D.regions)) THEN [D EXCEPT !.regions = [i \in 1..Len(D.regions) |-> D.regions[pm[i]]]] ELSE D
+HShape == /\ Tr.outcome = "ok" /\ Len(Tr.events) = 8
+          /\ E(1).a = "Export" /\ E(2).a = "Load" /\ E(3).a = "Export" /\ E(4).a = "Edit"
+          /\ E(5).a = "Export" /\ E(6).a = "Load" /\ E(7).a = "Load" /\ E(8).a = "Export"
+HClause ==
+  IF ~HShape THEN 1
+  ELSE IF ~WrittenOK(Tr.page0, E(1).doc) THEN 2
+  ELSE IF ~RoundTripOK(Tr.page0, SeenOf(E(1).doc, E(2).pm), E(2).page, E(2).how) THEN 3
+  ELSE IF E(2).how = "ctor" /\ ~HeldOK(SeenOf(E(1).doc, E(2).pm), E(2).page) THEN 4
+  ELSE IF ~WrittenOK(E(2).page, E(3).doc) THEN 5
+  ELSE IF ~WrittenOK(E(4).page, E(5).doc) THEN 10                             \* the edited page is written in reading order
+  ELSE IF ~RoundTripOK(E(4).page, SeenOf(E(5).doc, E(6).pm), E(6).page, E(6).how) THEN 11   \* load(export(edited L1)) = edited L1
+  ELSE IF E(6).how = "ctor" /\ ~HeldOK(SeenOf(E(5).doc, E(6).pm), E(6).page) THEN 12
+  ELSE IF ~RoundTripOK(Tr.page0, SeenOf(E(1).doc, E(7).pm), E(7).page, E(7).how) THEN 13    \* X1 loaded again = P, as the first time
+  ELSE IF E(7).how = "ctor" /\ ~HeldOK(SeenOf(E(1).doc, E(7).pm), E(7).page) THEN 14
+  ELSE IF ~WrittenOK(E(7).page, E(8).doc) THEN 15
+  ELSE 0
+
+(* Scale and precision.  The pages of the driver's "scale" space (coordinates beyond 2^15 / 2^16 / 2^24 / 2^27, sizes, indices
+   and heights beyond 2^16 and 2^24, 300 lines / regions, 1100-point outlines, 70 000-character transcriptions) are ordinary
+   traces: every recorded integer is below 2^31 and TLC evaluates RHE / RoundTripOK on them exactly as on the small pages.
+   The "fine" executions hand the real code coordinates q/4 +- 2^-30: finer than the quarter grid of this model (and than
+   float32), so TLC cannot hold the input itself.  For those the record's page0 is not the projection of the built object but
+   the page computed from the exact rational coordinates by an independent routine of the driver (pagexml_common.oracle_page:
+   fractions.Fraction, nearest integer; no tie can occur); they are validated at the property level only, where RoundTripOK
+   compares what the real code wrote and loaded with that oracle page. *)
+
 PInit == /\ tid \in 1..NTraces
-         /\ pclause = Clause
+         /\ pclause = (IF Tr.kind = "hist" THEN HClause ELSE Clause)
          /\ page = Tr.page0 /\ pre = Tr.page0
          /\ doc = NoDoc /\ prevDoc = NoDoc /\ seen = NoDoc /\ step = 0 /\ how = "none"
 PNext == UNCHANGED <<vars, tid, pclause>>
